@@ -1,0 +1,7 @@
+//go:build !verif
+
+package badgerstore
+
+// verifPoint is an instrumentation point that is only active when built with
+// the "verif" build tag.
+func verifPoint(string, interface{}) {}
